@@ -2,7 +2,7 @@
    Statements only; proofs in Proofs/ItsFacts.v (repaired source: fixed F-C20-1, F-C20-2). *)
 From Coq Require Import String List NArith Lia Bool.
 From Ax Require Import Lib.Bytes Lib.Mvx Lib.SolAbi Lib.Keccak Model.Check Model.Env Model.Gateway Model.TokenManager Model.Its
-     Proofs.GatewayMsgs Proofs.TMFacts Proofs.ItsFacts Proofs.ItsWorld Proofs.ItsMore Proofs.ItsRoles Gen.Generated.
+     Proofs.GatewayMsgs Proofs.TMFacts Proofs.ItsFacts Proofs.ItsWorld Proofs.ItsMore Proofs.ItsRoles Proofs.ItsConfig Gen.Generated.
 Import ListNotations.
 Open Scope N_scope.
 
@@ -49,12 +49,25 @@ Section C20.
     | _ => rs w (fst (istep H verify w o))
     end.
   Proof. exact (istep_roles_frame H verify). Qed.
+  (* the pause flag is flipped by no operation other than the owner's pause / unpause; the trusted-address table by none
+     other than the owner's set / remove (all 25 kinds) *)
+  Theorem c20_config_frame : forall w o,
+    match o with
+    | ISetTrusted _ _ _ | IRemoveTrusted _ _ | IPause _ _ => True
+    | _ => cfg w (fst (istep H verify w o))
+    end.
+  Proof. exact (istep_config_frame H verify). Qed.
+  Theorem c20_pause_flag_owner_only : forall w o,
+    i_paused (iw_its (fst (istep H verify w o))) <> i_paused (iw_its w) -> exists c b, o = IPause c b /\ ic_caller c = ic_owner c.
+  Proof. exact (paused_changes_owner_only H verify). Qed.
 End C20.
 Print Assumptions c20_paused_frame.
 Print Assumptions c20_pause_owner_only.
 Print Assumptions c20_flow_limits_operator_only.
 Print Assumptions c20_operator_gain.
 Print Assumptions c20_roles_frame.
+Print Assumptions c20_config_frame.
+Print Assumptions c20_pause_flag_owner_only.
 
 (* the endpoint table regenerated from the sources: a new or re-annotated endpoint breaks this pin *)
 Example pin_its_endpoints : gen_its_endpoints =
